@@ -1374,7 +1374,7 @@ class BuildTarget(Target):
     @lru_cache(maxsize=None)
     def get_link_dep_subdirs(self) -> T.AbstractSet[str]:
         result: OrderedSet[str] = OrderedSet()
-        for i in self.link_targets:
+        for i in itertools.chain(self.link_targets, self.link_whole_targets):
             if not isinstance(i, StaticLibrary):
                 result.add(i.get_builddir())
             result.update(i.get_link_dep_subdirs())
